@@ -226,6 +226,38 @@ def summary_same_or_prefix(ctx: Ctx, typed: Typed, qual: str) -> bool:
     return ok
 
 
+def _contained_names(fn, ctor: ast.Call, v: ast.AST) -> bool:
+    """metadata = {key: E for key, found in m.groupdict().items() if found is not None and E in P} where P holds (a local bound once to)
+    `<doc>.plain_text[a:b]` and the citation / its token are constructed with exactly those offsets: every value is a substring of the text at the
+    citation's own span, whatever E is"""
+    if isinstance(v, ast.Name):
+        ds = [x.value for x in stmts_local(fn.body) if isinstance(x, ast.Assign) and len(x.targets) == 1 and norm(x.targets[0]) == v.id]
+        if len(ds) != 1:
+            return False
+        v = ds[0]
+    if not (isinstance(v, ast.DictComp) and len(v.generators) == 1):
+        return False
+    E = norm(v.value)
+    P = None
+    for c in v.generators[0].ifs:
+        for a in (c.values if isinstance(c, ast.BoolOp) and isinstance(c.op, ast.And) else [c]):
+            if isinstance(a, ast.Compare) and len(a.ops) == 1 and isinstance(a.ops[0], ast.In) and norm(a.left) == E:
+                P = a.comparators[0]
+    if P is None:
+        return False
+    if isinstance(P, ast.Name):
+        ds = [x.value for x in stmts_local(fn.body) if isinstance(x, ast.Assign) and len(x.targets) == 1 and norm(x.targets[0]) == P.id]
+        if len(ds) != 1:
+            return False
+        P = ds[0]
+    if not (isinstance(P, ast.Subscript) and norm(P.value).endswith(".plain_text") and isinstance(P.slice, ast.Slice) and P.slice.lower is not None and P.slice.upper is not None):
+        return False
+    lo, hi = norm(P.slice.lower), norm(P.slice.upper)
+    # the same offsets are the citation's span (directly, or via the token built in the same call)
+    texts = {norm(k.value) for c2 in ast.walk(ctor) if isinstance(c2, ast.Call) for k in c2.keywords if k.arg in ("start", "end", "span_start", "span_end", "full_span_start", "full_span_end")}
+    return lo in texts and hi in texts
+
+
 def rule_provenance(ctx: Ctx, typed: Typed):
     repo = ctx.repo
     hm, fm = repo.mod("helpers"), repo.mod("find")
@@ -340,6 +372,11 @@ def rule_provenance(ctx: Ctx, typed: Typed):
                             and isinstance(kw.value.func.value, ast.Name) and kw.value.func.value.id in pv.match:
                         n_stores += 1
                         ctx.ob("R-C17-1", f"{qual}/metadata=groupdict", True, "all values are groups of a match over the document text after the citation",
+                               node=kw.value, mod=mod)
+                    elif _contained_names(fn, n, kw.value):
+                        n_stores += 1
+                        ctx.ob("R-C17-1", f"{qual}/metadata=names-found-in-own-span", True,
+                               "each value is kept only under `value in <the plain text at the citation's own span>`: a substring of the citation's extent by its guard",
                                node=kw.value, mod=mod)
                     else:
                         n_stores += 1
